@@ -299,7 +299,7 @@ theorem canon_shape_on (puny : Str → Str) (sf : Bool)
     rcases mem_canonQuery hc with rfl | rfl | ⟨y, hy, hcy⟩
     · decide
     · decide
-    · simp only [requote, Bool.false_eq_true, if_false] at hcy
+    · simp only [requoteItem, Bool.false_eq_true, if_false] at hcy
       exact noWs_safelyUnquote _ (NoCtl.of_subset hy hq_ctl) c hcy
   have hF_ws : NoWs F := by
     rw [← hF]
